@@ -267,6 +267,38 @@ func (in *inst) step(c *vt.Ctx, o fsx.Op) *vt.Deviation {
 	if strings.HasPrefix(o.K, "F") && in.skipSlot[o.H] {
 		return nil // the call that should have filled this handle slot was not issued
 	}
+	if o.K == "SubProbe" {
+		// a view obtained from the wrapper is confined like the wrapper: whatever spelling names its
+		// directory, it shows what the standalone file system's view of that directory shows
+		if in.win || in.confOnly {
+			return nil
+		}
+		c.Eval(1)
+		sw, ew := in.w.Sub(o.P)
+		sr, er := in.r.Sub(o.P)
+		d := vt.Dev("prop", "C10", "fs", in.kind, "op", "Sub", "clause", "outcome", "a", pathClass(o.P))
+		if (ew == nil) != (er == nil) {
+			d.Detail = fmt.Sprintf("BasePathFS(%s,%s) Sub(%q) -> %v, standalone %v", in.kind, in.base, o.P, ew, er)
+			return d
+		}
+		if ew != nil {
+			return nil
+		}
+		a, b := fsx.Snapshot(sw, fsx.SnapOpts{Roots: []string{"/"}, NoOwner: in.orefa}), fsx.Snapshot(sr, fsx.SnapOpts{Roots: []string{"/"}, NoOwner: in.orefa})
+		for _, rec := range a {
+			if strings.Contains(rec.Content, "LEAK:Zq7-") {
+				d.Fields["clause"] = "escape-read"
+				d.Detail = fmt.Sprintf("BasePathFS(%s,%s) Sub(%q): the view shows %s, a file outside the base directory", in.kind, in.base, o.P, rec.Path)
+				return d
+			}
+		}
+		if p, f, l, r, same := fsx.Diff(a, b); !same {
+			d.Fields["clause"] = "value"
+			d.Detail = fmt.Sprintf("BasePathFS(%s,%s) Sub(%q): the view differs from the standalone file system's at %s (%s): %q vs %q", in.kind, in.base, o.P, p, f, l, r)
+			return d
+		}
+		return nil
+	}
 	if o.K == "BaseChdir" {
 		// the owner of the underlying file system moves ITS working directory to a place outside the
 		// base directory: the wrapper is documented to be in its root then (so is the reference)
@@ -502,7 +534,11 @@ func TestCheck(t *testing.T) {
 			held := map[int]bool{}
 			for n := rapid.IntRange(1, 30).Draw(t, "n"); n > 0; n-- {
 				ops := []fsx.Op(nil)
-				switch rapid.IntRange(0, 6).Draw(t, "what") {
+				switch rapid.IntRange(0, 7).Draw(t, "what") {
+				case 7: // a view of the wrapper, its directory named by any spelling
+					ps := append(hostile(base), cfg.Paths()...)
+					ps = append(ps, "a", "w", "w/a", "../a", ".", "b")
+					ops = []fsx.Op{{K: "SubProbe", P: rapid.SampledFrom(ps).Draw(t, "subdir")}}
 				case 6: // the working directory of the underlying file system leaves the base directory
 					ops = []fsx.Op{{K: "BaseChdir", P: rapid.SampledFrom([]string{"/", "/w", "/a", base + "2"}).Draw(t, "out")}, {K: "Getwd"}, {K: "Abs", P: "x"},
 						{K: "Stat", P: rapid.SampledFrom([]string{"w", ".", "a", "secret", "outside", "b", "x"}).Draw(t, "rel")}}
